@@ -183,7 +183,8 @@ func tyToken(fset *token.FileSet, e ast.Expr) interface{} {
 		case "DurationType":
 			return "Duration"
 		case "TimeType":
-			return "Time"
+			// the bare literal: what the generator emits when no type_constructor is configured (or when it lost it)
+			return "Time{}"
 		}
 		return J{"other": s}
 	case *ast.CallExpr:
